@@ -307,6 +307,23 @@ pub fn c04(r: &mut Rng, tier: &str) -> Vec<Case> {
     let n = if quick(tier) { 16 } else { 256 };
     let mut cases = vec![];
     let timing = Proj { mode: Mode::Timing, ..NONE };
+    // the recorded finding (known_findings.txt) is replayed first on every run: each block repeat with three
+    // iterations, where Zilog publishes 21 + 21 + 16 T-states
+    for op in [0xB0u8, 0xB8, 0xB1, 0xB9] {
+        let mut s = St::default();
+        s.pc = 0x0100;
+        s.sp = 0xFF00;
+        s.set_pair(B, 3);
+        s.set_pair(H, 0x4000);
+        s.set_pair(D, 0x5000);
+        s.regs[A] = 0xA5;
+        s.poke(0x0100, &[0xED, op]);
+        let mut c = Case::new(format!("ED:{:02X}/finding", op));
+        c.key = format!("ED:{:02X}", op);
+        c.push(sbox(s), P_NONE);
+        c.push(Cmd::X, timing);
+        cases.push(c);
+    }
     for (page, op) in all_rows() {
         let cond = page == Page::Base && is_cond_base(op);
         let n = if cond { n.max(256) } else { n };
@@ -2023,4 +2040,128 @@ pub fn c20(r: &mut Rng, tier: &str) -> Vec<Case> {
         cases.push(c);
     }
     cases
+}
+
+
+// ---------------------------------------------------------------------------------------------
+// register sweeps: one step for every value of one 16-bit register, for every row
+// ---------------------------------------------------------------------------------------------
+
+/// which hashes of a sweep line a property compares (engine::Proj::swr)
+pub fn swr_bits(prop: &str) -> u8 {
+    match prop {
+        "C01" => 1,
+        "C02" => 2,
+        "C03" => 4,
+        "C04" => 8 | 16,
+        "C05" => 8,
+        "C06" => 1 | 4 | 32,
+        "C09" => 1,
+        _ => 0,
+    }
+}
+
+/// the projection of single steps that stands for the same observables
+pub fn proj_for_sweep(prop: &str, fmask: u8) -> Proj {
+    match prop {
+        "C01" | "C09" => p_regs(),
+        "C02" => Proj { fmask, mode: Mode::Flags, ..NONE },
+        "C03" => Proj { pc: true, sp: true, ..NONE },
+        "C04" | "C05" => Proj { cyc: true, mode: Mode::Timing, ..NONE },
+        _ => Proj { regs: true, sp: true, pc: true, ctl: true, fmask: 0, ..NONE },
+    }
+}
+
+fn is_bit_row(page: Page, op: u8) -> bool {
+    matches!(page, Page::CB | Page::DDCB | Page::FDCB) && (0x40..0x80).contains(&op)
+}
+
+/// `regs`: subset of 0 BC 1 DE 2 HL 3 IX 4 IY 5 SP 7 AF.  Every row of `rows` x every register x all
+/// 65,536 values (block repeats: BC kept small and not swept).
+pub fn swr_cases(r: &mut Rng, prop: &str, rows: &[(Page, u8)], regs: &[u8], per_row: usize) -> Vec<Case> {
+    let bits = swr_bits(prop);
+    let mut cases = vec![];
+    for &(page, op) in rows {
+        for k in 0..per_row {
+            let mut s = state_for(r, page, op);
+            s.top = 0xFFFF;
+            s.rom = None;
+            s.halt = false;
+            s.int = None;
+            s.nmi = false;
+            if s.seed == 0 {
+                s.seed = SEEDS[1 + k % 5];
+            }
+            if is_block_repeat(page, op) {
+                s.set_pair(B, 1 + r.below(6) as u16);
+            }
+            // keep the code away from the very top so that the four restored bytes do not wrap (either is fine, this is simpler)
+            for &w in regs {
+                if is_block_repeat(page, op) && w == 0 {
+                    continue;
+                }
+                let fmask = if is_bit_row(page, op) { 0x53 } else { 0xD7 };
+                let mut c = Case::new(format!("sweep-reg/{}/{}", ["BC", "DE", "HL", "IX", "IY", "SP", "PC", "AF"][w as usize], tagof(page, op)));
+                c.key = tagof(page, op);
+                c.push(sbox(s.clone()), P_NONE);
+                c.push(Cmd::SWR { which: w, blk: 0, nblk: 1, fmask }, Proj { swr: bits, ..NONE });
+                cases.push(c);
+            }
+        }
+    }
+    cases
+}
+
+/// every PC of a random image (the instruction stream is whatever the image holds there)
+fn swr_pc_cases(r: &mut Rng, prop: &str, n: usize, tops: &[u16]) -> Vec<Case> {
+    let bits = swr_bits(prop);
+    let mut cases = vec![];
+    for k in 0..n {
+        let mut s = rand_state(r);
+        s.seed = SEEDS[1 + k % 5];
+        s.top = tops[k % tops.len()];
+        s.rom = None;
+        // keep accidental block repeats short
+        s.set_pair(B, 1 + r.below(6) as u16);
+        let mut c = Case::new(format!("sweep-reg/PC/top{:04X}", s.top));
+        c.key = "sweep-pc".into();
+        c.push(sbox(s), P_NONE);
+        c.push(Cmd::SWR { which: 6, blk: 0, nblk: 1, fmask: 0 }, Proj { swr: bits & !2, ..NONE });
+        cases.push(c);
+    }
+    cases
+}
+
+/// the register sweeps each property adds to its case list
+pub fn sweeps_for(prop: &str, r: &mut Rng, tier: &str) -> Vec<Case> {
+    let n = if quick(tier) { 1 } else { 4 };
+    let all = [0u8, 1, 2, 3, 4, 5, 7];
+    let rows = all_rows();
+    match prop {
+        "C01" | "C02" | "C03" | "C04" => {
+            let mut v = swr_cases(r, prop, &rows, &all, n);
+            if prop != "C02" {
+                v.extend(swr_pc_cases(r, prop, 5 * n, &[0xFFFF]));
+            }
+            v
+        }
+        "C05" => swr_cases(r, prop, &rows, &[2, 5, 7], n),
+        "C06" => {
+            let mut v = swr_cases(r, prop, &rows, &[2, 3, 4, 5], n);
+            v.extend(swr_pc_cases(r, prop, 6 * n, &[0xFFFF, 0x7FFF, 0x00FF]));
+            v
+        }
+        "C09" => {
+            let mut rows9: Vec<(Page, u8)> = vec![];
+            for op in [0xF5u8, 0xF1, 0x08, 0xD9, 0xC5, 0xD5, 0xE5, 0xC1, 0xD1, 0xE1, 0xEB, 0xE3, 0xF9] {
+                rows9.push((Page::Base, op));
+            }
+            for op in [0xE5u8, 0xE1, 0xE3, 0xF9] {
+                rows9.push((Page::DD, op));
+                rows9.push((Page::FD, op));
+            }
+            swr_cases(r, prop, &rows9, &all, 2 * n)
+        }
+        _ => vec![],
+    }
 }
